@@ -1,13 +1,17 @@
 """Registered checks C06 (C07, C09, C13 follow)."""
 from . import hydro_checks as HY
+from . import shift_checks as SH
 
 
 def dispatch_replay(chk, rp):
     if rp.get("kind") == "hydro":
         return HY.replay_file(chk, rp)
+    if rp.get("kind") == "shift":
+        return SH.replay_file(chk, rp)
     raise SystemExit("cannot replay kind %r; re-run the check" % rp.get("kind"))
 
 
 REGISTRY = {
     "C06": {"run": HY.c06, "replay": dispatch_replay},
+    "C07": {"run": SH.c07, "replay": dispatch_replay},
 }
